@@ -6,6 +6,7 @@ PROP = {
         {"name": "gstuff_enum", "mode": "enum"},
         {"name": "gstuff_cfg", "quick": 1500000, "thorough": 20000000, "maxlen": 400},
         {"name": "gstuff_legacy", "quick": 1000000, "thorough": 12000000, "maxlen": 400},
+        {"name": "gstuff_cfg_resume", "quick": 600000, "thorough": 8000000, "maxlen": 300},
         {"name": "gstuff_cfg_bigcap", "quick": 20000, "thorough": 300000, "maxlen": 400},
         {"name": "gstuff_legacy_bigcap", "quick": 15000, "thorough": 200000, "maxlen": 400},
     ],
